@@ -4,8 +4,11 @@
 mod bristol;
 mod builder;
 mod circ;
+mod consts;
 mod exhaust;
+mod front;
 mod lit;
+mod panicrec;
 mod prog;
 mod sexp;
 
@@ -35,6 +38,13 @@ fn run_job(job: &Sexp) -> String {
         "literal" => lit::job_literal(job),
         "exhaust" => exhaust::job_exhaust(job),
         "program" => prog::job_program(job),
+        "scan" => front::job_scan(job),
+        "pretty" => front::job_pretty(job),
+        "front" => front::job_front(job),
+        "consts" => consts::job_consts(job),
+        "panicrec" => panicrec::job_panicrec(job),
+        "panicparse" => panicrec::job_panicparse(job),
+        "panicprog" => panicrec::job_panicprog(job),
         "bristol-out" => bristol::job_bristol_out(job),
         "bristol-in" => bristol::job_bristol_in(job),
         "bristol-prog" => bristol::job_bristol_prog(job),
